@@ -26,7 +26,8 @@ REQUIRED = ["op.scenario.remove_lanelet", "op.scenario.remove_lanelet-list", "op
             "op.network.remove_intersection", "op.scenario.remove_traffic_sign", "op.scenario.remove_traffic_light",
             "op.scenario.remove_intersection", "op.cutout.shape", "op.cutout.types", "op.cutout.both",
             "op.cutout.list", "removed-lanelet-was-referenced-by-intersection", "removed-lanelet-had-shared-sign",
-            "removed-sign-was-in-stop-line", "crossing-removed"]
+            "removed-sign-was-in-stop-line", "crossing-removed",
+            "incoming-relation-between-survivors.successors_right", "incoming-relation-between-survivors.successors_left"]
 ASSUMPTIONS = ["'left_of' between incomings, first occurrences of signs and areas are not in the statement's list",
                "for cut-outs the statement does not fix which incoming elements survive; only their content is judged"]
 SHARDS = {"quick": 4, "thorough": 16}
@@ -213,6 +214,23 @@ def run(ctx):
                     if inc[f] != [x for x in b["incomings"][k][f] if x in L]:
                         ctx.violation("C10/%s/incoming-%s-wrong" % (op, f), "%s vs old %s restricted to %s" % (
                             inc[f], b["incomings"][k][f], sorted(L)), wit)
+
+        # relations between remaining lanelets that an intersection records (incoming lanelet x -> successor y of a
+        # turning kind) are relations between remaining elements: they persist, also through a cut-out
+        for iid, b in before["intersections"].items():
+            if iid in removed_I:
+                continue
+            for k, inc in b["incomings"].items():
+                for f in ("successors_right", "successors_straight", "successors_left"):
+                    for x in inc["incoming_lanelets"]:
+                        for y in inc[f]:
+                            if x in L and y in L:
+                                ctx.feature("incoming-relation-between-survivors." + f)
+                                a = after["intersections"].get(iid, {"incomings": {}})["incomings"].get(k)
+                                if a is None or x not in a["incoming_lanelets"] or y not in a[f]:
+                                    ctx.violation("C10/%s/incoming-relation-between-remaining-lanelets-lost/%s" % (op, f),
+                                                  "intersection %s incoming %s: %s -> %s (both remain) is gone" % (
+                                                      iid, k, x, y), wit)
 
     n = ctx.pick(200, 10000)
     for i, rng in ctx.cases("histories", n):
